@@ -15,6 +15,7 @@ import csv
 import io
 import itertools
 import os
+import re
 import sys
 
 PROPERTY = "C05"
@@ -524,11 +525,15 @@ def _c06():
     return c06
 
 
-def typed_col(rng, kind, name, rows, clean, allow_unmatched=False):
+def typed_col(rng, kind, name, rows, clean, allow_unmatched=None):
     """one column descriptor (the c06 column dict plus 'name') and its cell texts. clean: every cell is acceptable to the
     importer in the column's validation mode (the hypothesis `cellOK` of read_csv_typed_eq_spec)"""
     c6 = _c06()
     col = {"kind": kind, "name": name}
+    if allow_unmatched is None:
+        # a categorical column without free text refuses a cell that is no category (fix NC06d). C05's own stream holds such
+        # cells, in the files that need not be clean, once the finding is no longer listed open; C06's stream always
+        allow_unmatched = not clean and not c6.nc06d_open()
     if kind == "indexed":
         cells = [bytes(rng.choice(b"abcxyz 01") for _ in range(rng.choice([0, 1, 2, 3, 5, 12, 40]))).lstrip(b" ") for _ in range(rows)]
     elif kind in ("categorical", "leaky"):
@@ -610,7 +615,7 @@ def typed_col(rng, kind, name, rows, clean, allow_unmatched=False):
     return col, cells
 
 
-def typed_cases(rng, n, allow_unmatched=False):
+def typed_cases(rng, n, allow_unmatched=None):
     """mixed typed schemas through the REAL read_csv_with_schema_dict (schema dictionary of importer definitions) or
     parsers.read_csv (JSON schema file -> load_schema), with the smallest supported chunk_row_size values: every column
     crosses many kernel calls; categorical budgets are a few bytes per row, so free text forces regrowth"""
@@ -702,12 +707,25 @@ REJECT_TEXTS = {
     "datetime": (dict(day=True, flag=True), b"2020-06-15 19:45:39", {"empty": b"", "raise": b"2020-02-30 00:00:00"}),
     "date": (dict(day=True, flag=True), b"2021-03-04", {"empty": b"", "raise": b"2021-02-30"}),
 }
+# a categorical column without free text (fix NC06d): the cell is no category - a stranger, empty, a proper prefix of a key,
+# a key plus a byte, a key in another case, a key with a trailing blank
+REJECT_CATEGORICAL = (dict(cats=[{"k": b"no".hex(), "v": 0}, {"k": b"yes".hex(), "v": 1}], vtype="int8"), b"yes",
+                      {"unknown": b"maybe", "empty": b"", "prefix": b"ye", "extension": b"yess", "case": b"Yes",
+                       "trailing-blank": b"yes "})
+
+
+def reject_texts(categorical=None):
+    """the stratified rejected-cell table. categorical None: with the categorical rows once NC06d is no longer listed open
+    (C06's stream passes True: always)"""
+    if categorical is None:
+        categorical = not _c06().nc06d_open()
+    return dict(REJECT_TEXTS, categorical=REJECT_CATEGORICAL) if categorical else dict(REJECT_TEXTS)
 REJECT_ROWS = 6
 REJECT_LONG_ROW = 3
 
 
 def _reject_col(key, mode, name):
-    extra, good, classes = REJECT_TEXTS[key]
+    extra, good, classes = reject_texts(True)[key]
     kind = "int" if key == "uint" else key
     col = dict(kind=kind, name=name, **extra)
     if kind in ("bool", "int", "float"):
@@ -715,7 +733,7 @@ def _reject_col(key, mode, name):
     return col, good, classes
 
 
-def typed_reject_cases(quick=False):
+def typed_reject_cases(quick=False, categorical=None):
     """seed independent. One typed column `a` under test and a one-byte fixed-string column `b` whose long cell in row 3
     overflows its value budget (every run has a regrowth, and the record behind it is the first row of a kernel block); the
     cell of the given class is put into EVERY row position in turn, for every importer kind, every validation mode and every
@@ -726,7 +744,8 @@ def typed_reject_cases(quick=False):
     one is reported depends on the chunking (row order across blocks, index_map order within a block)."""
     out, n = [], 0
     names = [h.decode() for h in NAMES[:2]]
-    for key in REJECT_TEXTS:
+    table = reject_texts(categorical)
+    for key in table:
         modes = ["strict", "allow_empty", "relaxed"] if key in ("bool", "int", "uint", "float") else [None]
         for mode in modes:
             col, good, classes = _reject_col(key, mode, names[0])
@@ -735,6 +754,8 @@ def typed_reject_cases(quick=False):
                 accepted = reject_class(col, text) is None
                 for pos in range(REJECT_ROWS):
                     if quick and accepted and pos not in (0, REJECT_LONG_ROW, REJECT_ROWS - 1):
+                        continue
+                    if quick and key == "categorical" and cls not in ("unknown", "empty") and pos not in (0, REJECT_LONG_ROW + 1):
                         continue
                     rows = []
                     for r in range(REJECT_ROWS):
@@ -752,6 +773,8 @@ def typed_reject_cases(quick=False):
     # two rejected cells of different classes: row 0 in the later column, row 1 in the earlier column
     pairs = [("int", "strict", "range"), ("bool", "strict", "bad"), ("float", "allow_empty", "bad"), ("date", None, "raise"),
              ("uint", "relaxed", "range"), ("datetime", None, "raise")]
+    if "categorical" in table:
+        pairs.append(("categorical", None, "unknown"))
     for i, (k1, m1, c1) in enumerate(pairs):
         for (k2, m2, c2) in pairs[i + 1:]:
             for swap in (False, True):
@@ -795,6 +818,9 @@ def reject_class(col, cell):
     if k in ("datetime", "date"):
         x = (c6.ts_expect if k == "datetime" else c6.date_expect)(cell)[0]
         return {"raise": "value_error", "unspecified": "unspecified"}.get(x)
+    if k == "categorical":
+        # no free text allowed: a cell that equals no category key is refused (fix NC06d)
+        return None if any(c6.unhx(c["k"]) == cell for c in col["cats"]) else "value_error"
     return None
 
 
@@ -816,7 +842,7 @@ def predict_reject(case, calls):
     for bi, a in enumerate(calls):
         for k in want:
             col = cols.get(k)
-            if col is None or col["kind"] not in ("bool", "int", "float", "datetime", "date"):
+            if col is None or col["kind"] not in ("bool", "int", "float", "datetime", "date", "categorical"):
                 continue
             for r, cell in enumerate(colcells[names.index(k)][d:d + a]):
                 rc = reject_class(col, cell)
@@ -887,8 +913,23 @@ def typed_to_model(case):
         m.pop("chunks", None)
         m["name"] = col["name"]
         schema.append(m)
-    return {"op": "csv_typed", "file": case["file"], "names": case["names"], "schema": schema, "crs": case["crs"],
-            "include": case.get("include"), "exclude": case.get("exclude"), "fuel": case["fuel"]}
+    m = {"op": "csv_typed", "file": case["file"], "names": case["names"], "schema": schema, "crs": case["crs"],
+         "include": case.get("include"), "exclude": case.get("exclude"), "fuel": case["fuel"]}
+    if c6.nc06d_open():
+        # finding NC06d, while it is listed open: what the code AS FOUND computes is what the model computes for the same
+        # schema with every cell that is no category listed as a category of value 0 (reported under `asfound`)
+        alt, changed = [], False
+        for e in schema:
+            if e["kind"] == "categorical":
+                ci = case["names"].index(e["name"])
+                extra = sorted(set(c6.unmatched_cells(e, colcells[ci])))
+                if extra:
+                    e = dict(e, cats=e["cats"] + [{"k": c6.hx(x), "v": 0} for x in extra])
+                    changed = True
+            alt.append(e)
+        if changed:
+            m["schema_asfound"] = alt
+    return m
 
 
 def to_model(case):
@@ -960,6 +1001,19 @@ def impl_typed(e, case):
 
 
 def compare_typed(case, io_, mo):
+    """The implementation must answer like the composed model (importers with fix NC06d). While NC06d is listed open, a case
+    with a cell that is no category in a categorical column without free text may instead be answered like the code as found
+    (`asfound`, see typed_to_model): the property oracle reports it under the finding."""
+    why = _compare_typed(case, io_, mo)
+    if why and isinstance(mo.get("asfound"), dict) and _c06().nc06d_open() and _compare_typed(case, io_, mo["asfound"], asfound=True) is None:
+        return None
+    return why
+
+
+CAT_MSG = re.compile(r"^Field '(.*?)': '(.*)' \(row (\d+)\) is not one of the categories", re.S)
+
+
+def _compare_typed(case, io_, mo, asfound=False):
     c6 = _c06()
     if "err" in io_ or "err" in mo:
         a, b = c6.norm_err(io_.get("err", "<value>")), c6.norm_err(mo.get("err", "<value>"))
@@ -981,13 +1035,16 @@ def compare_typed(case, io_, mo):
             return f"impl reports field {mname.group(1)!r} ({msg[:100]}) but the reported cell must be {where}"
         if "can not be parsed: " in msg and msg.split("can not be parsed: ", 1)[1] != pred["cell"].decode("utf-8", "replace").strip():
             return f"impl reports the text {msg.split('can not be parsed: ', 1)[1]!r} but the reported cell must be {where}"
+        mcat = CAT_MSG.match(msg)
+        if mcat and (mcat.group(2) != pred["cell"].decode("utf-8", "replace") or int(mcat.group(3)) != pred["row"]):
+            return f"impl reports the text {mcat.group(2)!r} in row {mcat.group(3)} but the reported cell must be {where}"
         return None
     m = mo["ok"]
-    if case.get("_reject") and case["_reject"][2] != "two-cells":
+    if case.get("_reject") and case["_reject"][2] != "two-cells" and not asfound:
         # the stratified family: a mode that accepts the class of cell imports the file (checked against the oracle below);
         # a mode that rejects it must not get here
         key, mode, cls, pos = case["_reject"]
-        if reject_class(case["cols"][0], REJECT_TEXTS[key][2][cls]) is not None:
+        if reject_class(case["cols"][0], reject_texts(True)[key][2][cls]) is not None:
             return f"a {cls} cell in a {key} column (mode {mode}) must be rejected, but model and implementation import the file"
     if io_["rows"] != m["rows"]:
         return f"rows impl={io_['rows']} model={m['rows']}"
@@ -1287,7 +1344,11 @@ def check_spec(case, io_, mode):
 
 
 def match_finding(case, io_, mode):
-    return None          # every defect found for C05 is repaired by a fix patch; nothing is open
+    # every defect found for C05 is repaired by a fix patch; nothing is open. (A csv_typed case that fails only in the way of
+    # C06's finding NC06d is named as such; it counts as known only for a property under which the entry is listed open.)
+    if case.get("op") == "csv_typed":
+        return _c06().match_typed(case, io_)
+    return None
 
 
 def nontrivial(case, mo):
